@@ -5,6 +5,7 @@
 package c20
 
 import (
+	"bytes"
 	"context"
 	"encoding/base64"
 	"errors"
@@ -42,7 +43,27 @@ func r1Values() []string {
 		`alpn="h2" ech`, // the key alone (an empty value in presentation format)
 		`alpn="h2" key65400="C:\\" ech="b2xk" port=8443`, // an escaped backslash right before the closing quote
 		"alpn=\"h2\"\tech=\"b2xk\"\tport=8443",           // tabs between the parameters (white space of the presentation format)
+		`alpn="h2" ech="` + nonCanonicalB64(0) + `"`,     // ANOTHER spelling of list 0 (non-zero trailing bits in the last character): not "equal to the base64 of the given list", hence rewritten
 	}
+}
+
+// nonCanonicalB64 spells list i in base64 with non-zero padding bits in its last character: a lenient decoder yields the same
+// octets, the text differs from what the standard encoder writes.
+func nonCanonicalB64(i int) string {
+	const alphabet = "ABCDEFGHIJKLMNOPQRSTUVWXYZabcdefghijklmnopqrstuvwxyz0123456789+/"
+	s := []byte(b64(i))
+	k := len(s) - 1
+	for s[k] == '=' {
+		k--
+	}
+	if k == len(s)-1 {
+		panic("c20: list length is a multiple of 3: no padding bits to vary")
+	}
+	s[k] = alphabet[strings.IndexByte(alphabet, s[k])+1]
+	if d, err := base64.StdEncoding.DecodeString(string(s)); err != nil || !bytes.Equal(d, cfgLists[i]) {
+		panic("c20: the non-canonical spelling does not decode to the list")
+	}
+	return string(s)
 }
 
 type target struct{ Zone, Name string }
@@ -226,6 +247,7 @@ func run(r *ev.Run, sc scenario) {
 		}
 	}()
 	oc := "ok"
+	listBuf := make([]byte, 0, 64)
 	for ci, c := range sc.Calls {
 		if sc.ExternalEdit && ci > 0 {
 			for _, z := range api.Zones {
@@ -247,7 +269,13 @@ func run(r *ev.Run, sc scenario) {
 		for _, t := range c.Targets {
 			targets = append(targets, publish.Target{Zone: targetPool[t].Zone, Name: targetPool[t].Name})
 		}
-		results := pub.PublishECH(ctx, targets, cfgLists[c.Config])
+		// (the caller keeps ONE buffer for the list it publishes and refills it for every call, as a key-rotation loop does: what
+		// a call is given is what it publishes, whatever the buffer held during an earlier call)
+		listBuf = append(listBuf[:0], cfgLists[c.Config]...)
+		results := pub.PublishECH(ctx, targets, listBuf)
+		if !bytes.Equal(listBuf, cfgLists[c.Config]) {
+			r.Violation("config-list-modified", fmt.Sprintf("call%d: PublishECH changed the caller's config list", ci), sc)
+		}
 		after := api.Snapshot()
 		log := api.CallLog()
 		failed := ci == sc.FailCall && sc.FailAt < len(log) || sc.FailKind == "cancel-context" && ctx.Err() != nil
